@@ -69,7 +69,7 @@ pub fn proxy_handler(
 
     // Return error 403 if the address was blacklisted, whether it is the claimed origin of the
     //   request or any address it was forwarded through (the last of which is the actual peer)
-    let blacklist = &state.config.blacklist.list;
+    let blacklist = &state.config.blacklist;
 
     if blacklist.contains(&request.address.origin_addr)
         || request
